@@ -329,7 +329,7 @@ def _mangled(qual):
 
 def _param_order(fi):
     a = fi.node.args
-    return [x.arg for x in a.posonlyargs + a.args]
+    return [x.arg for x in a.posonlyargs + a.args] + ([a.vararg.arg] if a.vararg is not None else [])
 
 
 # ----------------------------------------------------------------------------- verification of one contract
